@@ -60,6 +60,7 @@ pub enum Event {
     Unsub { sub: usize, by: usize, result: Result<(), ObsErr> },
     DisallowBy { obs: usize, by: usize },
     VarDropped { who: Who, var: VarId },
+    NodeUpdate { node: NodeId, kind: u8, value: Option<Val> },
 }
 
 /// counts live instances of everything the harness places inside the graph
